@@ -31,6 +31,8 @@ PairJob(e, d, m1, m2, op2, fill) ==
 InitOffs(a) == LET al == Alignment(a) IN {U32(0), U32(al), U32(al + 1), U32(1), U32(al \div 2), H32(\h8000, al \div 2), H32(\hFFFF, 65536 - al)}
 Jobs ==
     {SampleJob(a, e, j) : a \in Archs, e \in BOOLEAN, j \in 1..NSamples}
+    \cup {[kind |-> "S", arch |-> "arm64", enc |-> e, off |-> o, gate |-> TRUE, pre |-> ~e] : e \in BOOLEAN, o \in Offsets("arm64")}
+    \cup {[kind |-> "S", arch |-> "riscv", enc |-> e, off |-> o, jal |-> TRUE, pre |-> ~e] : e \in BOOLEAN, o \in Offsets("riscv")}
     \cup {OneShotJob(a, e, j) : a \in {"x86", "arm64", "riscv"}, e \in BOOLEAN, j \in 1..4}
     \cup {PairJob(e, d, m1, m2, op2, fill) : e \in BOOLEAN, d \in 0..6, m1 \in PairMs, m2 \in PairMs, op2 \in {232, 233}, fill \in {0, 255}}
     \cup UNION {{[kind |-> "I", arch |-> a, enc |-> e, off |-> o] : e \in BOOLEAN, o \in InitOffs(a)} : a \in Archs}
@@ -39,7 +41,7 @@ Jobs ==
 
 AlignDown(a, o) == LET al == Alignment(a) IN <<o[1] - (o[1] % al), o[2]>>
 Input(j) ==
-    LET raw == IF "pair" \in DOMAIN j THEN X86Pair(j.pair[1], j.pair[2], j.pair[3], j.pair[4], j.pair[5], j.pair[6])
+    LET raw == IF "gate" \in DOMAIN j THEN Arm64Gate ELSE IF "jal" \in DOMAIN j THEN RvJalAll ELSE IF "pair" \in DOMAIN j THEN X86Pair(j.pair[1], j.pair[2], j.pair[3], j.pair[4], j.pair[5], j.pair[6])
                ELSE Sample(j.arch, j.n, j.seed, j.shift)
     IN IF j.pre THEN Stream(j.arch, TRUE, AlignDown(j.arch, j.off), raw) ELSE raw
 DeltaInput(j) == Raw("x86", j.n, j.seed, 0)
